@@ -141,6 +141,11 @@ class MinFlowDecompCycles(walkmodel.AbstractWalkModelDiGraph):
             edges_to_ignore_internal = elements_to_ignore
             additional_starts_internal = additional_starts
             additional_ends_internal = additional_ends
+            # As documented (and as kFlowDecomp does), a flow that is not conserved cannot be decomposed;
+            # this is checked only if no edge is ignored
+            if len(edges_to_ignore_internal) == 0 and not gu.check_flow_conservation(G, flow_attr):
+                utils.logger.error(f"{__name__}: The graph G does not satisfy flow conservation or some edges have missing `flow_attr`. This is an error, unless you passed `elements_to_ignore` to include at least those edges with missing `flow_attr`.")
+                raise ValueError("The graph G does not satisfy flow conservation or some edges have missing `flow_attr`. This is an error, unless you passed `elements_to_ignore` to include at least those edges with missing `flow_attr`.")
 
         else:
             utils.logger.error(f"flow_attr_origin must be either 'node' or 'edge', not {self.flow_attr_origin}")
